@@ -726,9 +726,17 @@ class VerifyingBase(LookupBaseFallback):  # noqa F821
     # zope.component.persistentregistry
 
     def changed(self, originally_changed):
+        # Snapshot the generations *before* dropping the caches. Whatever
+        # fills the emptied caches meanwhile (another thread, code run by
+        # reading ``_generation``) reads registries at least as new as the
+        # snapshot, so a later change of theirs is still noticed; with the
+        # other order an answer computed before such a change could be
+        # paired with a snapshot taken after it and be served forever.
+        verify_ro = self._registry.ro[1:]
+        verify_generations = [r._generation for r in verify_ro]
         LookupBaseFallback.changed(self, originally_changed)  # noqa F821
-        self._verify_ro = self._registry.ro[1:]
-        self._verify_generations = [r._generation for r in self._verify_ro]
+        self._verify_ro = verify_ro
+        self._verify_generations = verify_generations
 
     def _verify(self):
         if (
